@@ -64,7 +64,7 @@ pub fn oracle(spec_: &RespSpec, m: &Mutated, head_len: usize, case: &RespCase, o
     let mut saw_err = false;
     let ns: Vec<usize> = match &case.reads {
         Reads::Sizes(ns) => ns.clone(),
-        Reads::Drain(_) => vec![usize::MAX],
+        Reads::Drain(_) | Reads::Text(_) => vec![usize::MAX],
     };
     for (i, ev) in out.events.iter().enumerate() {
         match ev {
@@ -74,7 +74,7 @@ pub fn oracle(spec_: &RespSpec, m: &Mutated, head_len: usize, case: &RespCase, o
                     return Err((format!("fabricated-{}", tag), format!("after event #{} the delivered bytes ({} B) are not a prefix of the payload that arrived ({} B)", i, got.len(), exp.payload.len())));
                 }
                 let is_eof_signal = match &case.reads {
-                    Reads::Drain(_) => true,
+                    Reads::Drain(_) | Reads::Text(_) => true,
                     Reads::Sizes(_) => bs.is_empty() && ns[i] > 0,
                 };
                 if is_eof_signal && !(complete && got.len() == exp.payload.len()) {
